@@ -1,6 +1,7 @@
 package props
 
 import (
+	"sort"
 	"errors"
 	"fmt"
 	"log/slog"
@@ -18,7 +19,7 @@ import (
 func init() {
 	register(&Prop{
 		ID: "C20", Level: "exploration",
-		Rule: "one case = a router with LoggerWithHandler(capturing handler) over all handler kinds, a drawn router-wide client-IP resolver (none, succeeding, failing - returning nil or a rejected candidate address next to its error) and routes with a drawn per-route resolver (inherit, other succeeding, failing, nil), plus a twin router without the logger; 8-20 requests per run, each with a scripted handler behaviour from {explicit status at the class boundaries 200/299/300/399/400/499/500/599 and every code 301-308 and 310, each with or without a Location header set, 201 with a Location header, informational only, implicit 200 by a body write, no write at all, redirect with Location, 3xx without Location, write on a failing connection, panic with a drawn value} and a drawn handler kind (route, no-route, no-method, built-in redirect, options). Oracle: exactly one record per returning handler, emitted after the handler returned; status attribute = the status the recorder reports (first final status forwarded, 200 if none); method, host, path of the request; message = resolved client IP / remote address when no resolver is configured / 'unknown' when resolution fails, using the route's resolver in route handlers and the router-wide one elsewhere; level INFO/DEBUG/WARN/ERROR per status class, location attribute exactly for 3xx with a Location header; the bytes and headers on the simulated connection equal those of the twin router; a panic passes through as the identical value and emits no record. latency is ignored. Non-trivial: the run covered at least 3 status classes and 2 handler kinds; distinct = hash of (configuration, request scripts).",
+		Rule: "one case = a router with LoggerWithHandler(capturing handler) over all handler kinds, a drawn router-wide client-IP resolver (none, succeeding, failing - returning nil or a rejected candidate address next to its error) and routes with a drawn per-route resolver (inherit, other succeeding, failing, nil), plus a twin router without the logger; 8-20 requests per run, each with a scripted handler behaviour from {explicit status at the class boundaries 200/299/300/399/400/499/500/599 and every code 301-308 and 310, each with or without a Location header set, 201 with a Location header, informational only, implicit 200 by a body write, no write at all, redirect with Location, 3xx without Location, write on a failing connection, panic with a drawn value} and a drawn handler kind (route, no-route, no-method, built-in redirect, options). Oracle: exactly one record per returning handler, emitted after the handler returned; status attribute = the status the recorder reports (first final status forwarded, 200 if none); method, host, path of the request; message = resolved client IP / remote address when no resolver is configured / 'unknown' when resolution fails, using the route's resolver in route handlers and the router-wide one elsewhere; level INFO/DEBUG/WARN/ERROR per status class, location attribute exactly for 3xx with a Location header; the bytes and headers on the simulated connection equal those of the twin router; a panic passes through as the identical value and emits no record. latency is ignored. Then 2-3 tasks send overlapping requests through the same wrapped handlers under the seeded scheduler (yields inside handlers and inside the log handler's Enabled, i.e. before slog copies the attributes): the records must be exactly one per request with that request's data. Non-trivial: the run covered at least 3 status classes and 2 handler kinds; distinct = hash of (configuration, request scripts).",
 		Run:  runC20, Quick: 64000, Thorough: 9600000,
 		Real: []string{"Logger middleware (logger.go)", "Context.ClientIP / RemoteIP", "recorder ResponseWriter", "ServeHTTP dispatch", "option processing (WithClientIPResolver)"},
 		Stub: []string{"slog sink: capturing handler", "client-IP resolvers: scripted", "net/http connection: simulated connection", "wall clock: real but unobserved (latency attribute excluded)"},
@@ -278,6 +279,73 @@ func runC20(src sim.Source, o Opts) *Result {
 		}
 	}
 	capt.OnRecord = nil
+	// overlapping requests through the same wrapped handlers: 2-3 tasks under the seeded scheduler, yields inside the
+	// handlers and inside the log handler's Enabled (i.e. between the middleware building its attributes and slog copying
+	// them); every request must get its own record
+	if !res.failed() {
+		s := sim.NewSched(src)
+		drawPolicy(src, s)
+		capt.Records = nil
+		capt.OnEnabled = func() { s.Yield(sim.PtUser) }
+		var want []string
+		ntasks := 2 + src.Intn("logtasks", 2)
+		for t := 0; t < ntasks; t++ {
+			t := t
+			nreq := 1 + src.Intn("logreqs", 3)
+			type creq struct {
+				p      world.Probe
+				status int
+			}
+			var reqs []creq
+			for q := 0; q < nreq; q++ {
+				ri := src.Intn("route", len(routes))
+				st := sim.Pick(src, "status", []int{200, 201, 302, 404, 500})
+				pr := world.Probe{Method: "GET", Host: fmt.Sprintf("h%d-%d.invalid", t, q), Path: fmt.Sprintf("/l%d/c%d-%d", ri, t, q)}
+				reqs = append(reqs, creq{pr, st})
+				want = append(want, fmt.Sprintf("%s %s status=%d method=GET host=%s path=%s", levelOf(st), expectMsg(model.KRoute, routes[ri]), st, pr.Host, pr.Path))
+			}
+			s.Go(fmt.Sprintf("client%d", t), func(*sim.Task) {
+				for _, rq := range reqs {
+					rq := rq
+					log := &world.ReqLog{Inner: func(c fox.Context, h *world.Hit) {
+						s.Yield(sim.PtHandler)
+						c.Writer().WriteHeader(rq.status)
+						s.Yield(sim.PtHandler)
+					}}
+					w.R.ServeHTTP(world.NewConn(), world.NewRequest(rq.p.Method, rq.p.Host, rq.p.Path, "", "", log))
+					s.Yield(sim.PtUser)
+				}
+			})
+		}
+		out := s.Run()
+		capt.OnEnabled = nil
+		res.Steps += s.Steps
+		res.add("context_switches", s.Switches)
+		if out.Kind != sim.Done {
+			res.Leaked = s.Leaked()
+			res.fail("C20/concurrent", "overlapping requests: scheduler ended with %s %s", out.Kind, out.Detail)
+			return res
+		}
+		for _, tk := range s.Tasks {
+			if tk.Panic != nil {
+				res.Stack = tk.PanicStack
+				res.fail("C20/panic", "overlapping requests: task %s panicked: %v", tk.Name, tk.Panic)
+				return res
+			}
+		}
+		var got []string
+		for _, rec := range capt.Records {
+			got = append(got, fmt.Sprintf("%s %s status=%s method=%s host=%s path=%s", rec.Level, rec.Msg, rec.Attrs["status"], rec.Attrs["method"], rec.Attrs["host"], rec.Attrs["path"]))
+		}
+		sort.Strings(got)
+		sort.Strings(want)
+		res.Checks++
+		res.add("overlapping_requests", len(want))
+		if d := world.DiffLines(got, want); d != "" {
+			res.fail("C20/concurrent", "overlapping requests through the same logger: the records are not one per request with that request's data: %s", d)
+			return res
+		}
+	}
 	res.Case["requests"] = scripts
 	res.Nontrivial = len(classes) >= 3 && len(kinds) >= 2
 	res.CaseKey = hashStrings(append([]string{fmt.Sprint(globalRes), fmt.Sprint(routes), failIP}, scripts...)...)
